@@ -107,7 +107,11 @@ CHECKS.update({
              'These statements carried the guards `value == AS`, `GO`, END IF / ORDER BY spelled with one blank until five `fix:` commits in '
              '/repo removed the defects the guards described. WHITESPACE BETWEEN TOKENS: C11_lex_ws_run (a non-empty whitespace run at a token '
              'boundary lexes to one token per unit and the rest is lexed as after a single blank), C11_multiword_fin (the multi-word keyword '
-             'rules x inner runs x case: one token; finite family, bound in the statement), C11_split (statement sequence invariant under '
+             'rules x inner runs x case: one token; finite family, bound in the statement) and its UNBOUNDED form C11_first_match_run / '
+             'C11_first_match_respell (at a position whose next character is an ASCII letter, the rule of the table that matches and the '
+             'place where its match ends do not depend on the length or spelling of the white-space runs of the text, for every run and every '
+             'context; instance of the generic simulation C11_run_sim for the syntactic class `good`, checked on the regenerated rule table by '
+             'C11_run_table; the TZCast rule is left to a hypothesis that holds outright unless the letter is A or W), C11_split (statement sequence invariant under '
              'the skeleton relation; the spelling guard is derived: C11_split_guard_free; one guard left), C11_group_matching (bracket '
              'matching commutes with taking shapes, every class). Two refutations remain (comment after a terminator; trailing comment '
              'followed by a line break). Whitespace invariance of the generic _group driver and the ad-hoc passes is covered by the '
